@@ -61,11 +61,17 @@ func next(label, kind string) *big.Int {
 		cur.pos++
 		return new(big.Int)
 	}
+	// Entries produced by engine-side stubs (contract stubs, uninterpreted
+	// functions, modelled clocks) have no native consumer: skip forward to the
+	// next entry carrying the requested label.
+	for cur.pos < len(cur.tape.Entries) && cur.tape.Entries[cur.pos].Label != label {
+		cur.pos++
+	}
+	if cur.pos >= len(cur.tape.Entries) {
+		return new(big.Int)
+	}
 	e := cur.tape.Entries[cur.pos]
 	cur.pos++
-	if e.Label != label {
-		panic(tapeMismatch{fmt.Sprintf("tape entry %d has label %q, harness asked for %q", cur.pos-1, e.Label, label)})
-	}
 	v, ok := new(big.Int).SetString(e.Val, 10)
 	if !ok {
 		panic(tapeMismatch{"bad value " + e.Val})
